@@ -7,7 +7,8 @@
    exhaustive, exact computation over that finite data (vm_compute inside
    the kernel), lifted to a universally quantified statement. *)
 From Coq Require Import ZArith QArith List String Bool.
-From Verif Require Import Scalar KField Quat GroupK ITARef Groups GroupChecks GroupFacts.
+From Coq Require Import Reals.
+From Verif Require Import Scalar RInst KField Quat GroupK ITARef Groups GroupChecks GroupFacts SymDotR SymDotK GroupReal.
 Import ListNotations. Open Scope string_scope.
 
 (* each named point group is a finite group: identity, closed under
@@ -26,6 +27,17 @@ Proof.
   split; [symmetry; apply Z.eqb_eq; exact H2 | apply kis_group_spec; exact H1].
 Qed.
 Print Assumptions C03_named_groups_are_groups.
+
+(* the same over the REAL numbers (transfer by the homomorphism K -> R): the
+   embedded list is a group of unit quaternions up to overall sign, closed under
+   the generated Hamilton product and under inversion *)
+Theorem C03_named_groups_are_real_groups : forall g, In g groups ->
+  let G := map rtoR (g_elems g) in
+  (forall x, In x G -> qnorm2 ROps (fst x) = 1%R) /\
+  (forall x y, In x G -> In y G -> exists z, In z G /\ req (rmul ROps x y) z) /\
+  (forall x, In x G -> exists z, In z G /\ req (rinv ROps x) z).
+Proof. exact named_groups_are_real_groups. Qed.
+Print Assumptions C03_named_groups_are_real_groups.
 
 (* the operations are those its Hermann-Mauguin name denotes (independent
    reference Model/ITARef.v), with the right order -- for every group but mm2 *)
